@@ -213,23 +213,17 @@ def gen_iluf(rng, big=False):
 
 
 def gen_histb(rng, big=False):
-    """BCSR histories.  Two open FEAT defects are avoided here and replayed in the stream 'known-edge'
-    (FINDINGS_C08.md): blocked SSOR lacks the omega (2 - omega) scaling (F1: only omega = 1 is generated), and the
-    blocked ILU multiplies L_ij with the inverse pivot from the wrong side (F2: only block-upper-triangular patterns
-    or mutually commuting blocks are generated)."""
+    """BCSR histories: general (non-commuting) blocks, every omega, every pattern; a fifth of the ILU cases uses
+    mutually commuting blocks (polynomials of one matrix) as an extra input class."""
     bs = rng.choice([2, 2, 3])
-    kind = rng.choice(["jac", "sor", "ssor", "ilu", "ilu", "mat"])
+    kind = rng.choice(["jac", "sor", "ssor", "ssor", "ilu", "ilu", "mat"])
     n = rng.choice([1, 2, 2, 3, 3, 4] + ([5, 6] if big else []))
     commuting = None
-    style = None
-    if kind == "ilu":
-        if rng.random() < 0.3:
-            style = rng.choice(["upper", "diag"])
-        else:
-            commuting = [[Fr(rng.randint(-2, 2)) for _ in range(bs)] for _ in range(bs)]
-    style, rows = gen_pattern(rng, n, style)
+    if kind == "ilu" and rng.random() < 0.2:
+        commuting = [[Fr(rng.randint(-2, 2)) for _ in range(bs)] for _ in range(bs)]
+    style, rows = gen_pattern(rng, n)
     vals = gen_values(rng, rows, block=bs, commuting=commuting)
-    omega = Fr(1) if kind == "ssor" else rng.choice(OMEGAS)
+    omega = rng.choice(OMEGAS)
     p = rng.choice([0, 1, 2, n]) if kind == "ilu" else 0
     return "histb %d %s %d %s %s %s %s" % (bs, kind, p, fq(omega), fmt_csr(rows, vals), fmt_n(gen_filter(rng, n)),
                                           gen_steps(rng, kind, rows, n, block=bs, erroneous_ok=False,
@@ -266,22 +260,20 @@ CORPUS = [
     "iluf 2 4 5 0 3 5 7 10 10 0 1 3 0 1 2 3 0 2 3 10 2/1 1/1 1/1 1/1 3/1 4/1 1/1 1/1 1/1 5/1 4 1/1 2/1 3/1 4/1",
     "hist ilu 0 1/1 2 3 0 2 4 4 0 1 0 1 4 1/1 1/1 1/1 1/1 0 2 S N",
     "hist jac 0 1/2 3 4 0 2 5 7 7 0 1 0 1 2 1 2 7 2/1 1/1 1/1 3/1 1/1 1/1 4/1 0 1 A 3 1/1 2/1 3/1",
+    # regression cases of the two defects found by this check and fixed in /repo (FINDINGS_C08.md):
+    # F1 blocked SSOR did not scale by omega (2 - omega): expected 3/8 3/8 (= 3/4 * D^-1 x), the old code gave 1/2 1/2
+    "histb 2 ssor 0 3/2 1 2 0 1 1 0 4 2/1 0/1 0/1 2/1 0 4 S N A 2 1/1 1/1 D",
+    "histb 2 ssor 0 1/2 2 3 0 2 4 4 0 1 0 1 16 4/1 1/1 0/1 4/1 1/1 0/1 0/1 1/1 1/1 0/1 2/1 1/1 5/1 0/1 1/1 5/1 0 4 "
+    "S N A 4 1/1 2/1 3/1 4/1 D",
+    # F2 blocked ILU multiplied L_ij with the inverse pivot from the left: complete pattern, expected A^-1 e_0
+    "histb 2 ilu 0 1/1 2 3 0 2 4 4 0 1 0 1 16 1/1 1/1 0/1 1/1 1/1 0/1 0/1 1/1 1/1 0/1 1/1 1/1 5/1 0/1 0/1 5/1 0 4 "
+    "S N A 4 1/1 0/1 0/1 0/1 D",
 ]
 
-
-# Inputs on which the property FAILS on the current tree (genuine FEAT defects, FINDINGS_C08.md). They run in their own
-# stream 'known-edge', are judged by the same oracle and matched against the open C08 entries of KNOWN_FINDINGS.json
-# by their signature; the random generator avoids the two input classes (see gen_histb).
-KNOWN_EDGE = [
-    # F1: SSORPrecondWithBackend<generic, SparseMatrixBCSR>::apply never scales by omega (2 - omega)
-    ("histb 2 ssor 0 3/2 1 2 0 1 1 0 4 2/1 0/1 0/1 2/1 0 4 S N A 2 1/1 1/1 D", "F1"),
-    ("histb 2 ssor 0 1/2 2 3 0 2 4 4 0 1 0 1 16 4/1 1/1 0/1 4/1 1/1 0/1 0/1 1/1 1/1 0/1 2/1 1/1 5/1 0/1 1/1 5/1 0 4 "
-     "S N A 4 1/1 2/1 3/1 4/1 D", "F1"),
-    # F2: ILUCoreBlocked::factorize_numeric_il_du computes L_ij <- D_jj^-1 * L_ij instead of L_ij * D_jj^-1
-    ("histb 2 ilu 0 1/1 2 3 0 2 4 4 0 1 0 1 16 1/1 1/1 0/1 1/1 1/1 0/1 0/1 1/1 1/1 0/1 1/1 1/1 5/1 0/1 0/1 5/1 0 4 "
-     "S N A 4 1/1 0/1 0/1 0/1 D", "F2"),
-]
-KNOWN_EDGE_SIG = {c: "c08-edge:" + f for c, f in KNOWN_EDGE}
+# exact expected outputs of the regression cases (checked in addition to the generic oracle)
+REGRESSION_EXPECT = {
+    "histb 2 ssor 0 3/2 1 2 0 1 1 0 4 2/1 0/1 0/1 2/1 0 4 S N A 2 1/1 1/1 D": "R 2 3/8 3/8 U1",
+}
 
 
 # ---------------------------------------------------------------------------------------------
@@ -702,6 +694,8 @@ def oracle_iluf(case, out):
 
 def oracle(case, out):
     op = case.split(" ", 1)[0]
+    if case in REGRESSION_EXPECT and out != REGRESSION_EXPECT[case]:
+        return "regression case: output %s, expected %s" % (out[:120], REGRESSION_EXPECT[case])
     try:
         if op == "hist":
             return oracle_hist(case, out, False)
@@ -730,6 +724,13 @@ def oracle(case, out):
         return None if y == exp else "result %s, expected %s" % (y, exp)
     except (IndexError, ValueError, AssertionError) as e:
         return "unparsable implementation output (%s): %s" % (e, out[:200])
+
+
+def model_filter(case):
+    """BCSR histories have a Lean model for the SOR / SSOR sweeps only (generic blocked sweeps, Model/Solver/Blocked)"""
+    if not case.startswith("histb"):
+        return True
+    return case.split(" ", 3)[2] in ("sor", "ssor")
 
 
 def canon(out):
@@ -818,22 +819,16 @@ def main(argv):
         cases += gen_cases(rng, 12000) if args.tier == "quick" else gen_cases(rng, 150000, big=True)
     st = vlib.Stream("precond", cases, [binary], vlib.driver_cmd(PROP), oracle=oracle, nontrivial=nontrivial,
                      describe=describe, signature=signature, canon=canon,
-                     model_filter=lambda case: not case.startswith("histb"))
-    streams = [st]
-    if not args.replay:
-        streams.append(vlib.Stream("known-edge", [c for c, _ in KNOWN_EDGE], [binary], None, oracle=oracle,
-                                   nontrivial=nontrivial, describe=describe, canon=canon,
-                                   signature=lambda c, o, w: KNOWN_EDGE_SIG.get(c)))
+                     model_filter=model_filter)
     stats_rule = ("random square CSR matrices n = 1..16 with stored non-zero diagonal (tridiagonal, banded, sparse, dense, "
                   "triangular, arrow patterns; explicit zero off-diagonals), omega in {1, 1/2, 2/3, 9/10, 5/4, 3/2, 7/4}, "
                   "ILU fill levels {-1,0,1,2,3,n}, polynomial orders 1..4, unit filters with 0..3 entries, histories "
                   "S N A (U N A)* D, linearity triples, stale applies, re-initialisation, apply-before-init; BCSR 2x2 / 3x3 "
                   "variants judged by the oracle only; non-trivial = n >= 3 with a strictly lower and a strictly upper entry")
-    return vlib.run_pipeline(PROP, args.tier, args.seed, lean, streams, t0, assumptions=[
+    return vlib.run_pipeline(PROP, args.tier, args.seed, lean, [st], t0, assumptions=[
         "Index modelled as unbounded Nat (no 64-bit overflow at the sizes FEAT can allocate)",
         "exact arithmetic: the scalar type is Q (GMP rationals); floating-point rounding is not covered by this check",
         "matrices store their diagonal entry and have sorted rows (documented precondition of the sweeps and of ILU)",
-        "BCSR (square-blocked) preconditioners are judged by the independent oracle only (no Lean model); blocked SSOR "
-        "with omega != 1 and blocked ILU with non-commuting blocks below the diagonal are open findings (stream "
-        "'known-edge', KNOWN_FINDINGS.json c08-edge:F1/F2) and excluded from the random stream"],
+        "BCSR (square-blocked) SOR / SSOR are compared with the generic blocked Lean model (bs x bs rational blocks); blocked "
+        "Jacobi / ILU / matrix preconditioners are judged by the independent oracle only"],
         extra_cov={"rule": stats_rule})
